@@ -132,6 +132,8 @@ class Statement(object):
                 ending_location = original_operand.find(original_operand[0], 1) if original_operand else -1
                 if ending_location == -1:
                     raise ParseError("[{}] requires a string between matching delimiters".format(self.mnemonic), line)
+                if any(ord(character) > 0xFF for character in original_operand[1:ending_location]):
+                    raise ParseError("[{}] string has a character that does not fit in one byte".format(self.mnemonic), line)
                 self.operand = Operand.create_from_str(
                     original_operand[0:ending_location + 1],
                     self.instruction
